@@ -92,7 +92,7 @@ static void open_instance(void)
     persistent_init(&st, (size_t)C.n, m_read, m_write);
     if (C.alg == 2) persistent_sum16(&st, crc_cb, 7439);
     else if (C.alg == 3) persistent_sum32(&st, sum32_cb, 7);
-    persistent_place(&st, (uint32_t)C.place + MB);
+    if ((uint32_t)C.place + MB != 0) persistent_place(&st, (uint32_t)C.place + MB);   /* address 0 is the default after init */
     if (aux) { xfree(aux); aux = NULL; }
     if (C.aux != 9999) {
         aux = C.aux ? xblock((size_t)C.aux) : xblock0();
